@@ -472,7 +472,7 @@ func (l *Lexer) scanText() Token {
 
 	value := strings.TrimSpace(l.input[start:l.pos])
 	end := l.position()
-	if value != "" && strings.HasPrefix(l.input[start:l.pos], value) {
+	if raw := l.input[start:l.pos]; value != "" && len(strings.TrimLeftFunc(raw, unicode.IsSpace)) == len(raw) {
 		// the token ends with its text, not with the blanks that follow it
 		end = Position{Line: startPos.Line, Column: startPos.Column + utf16Len(value), Offset: start + len(value)}
 	}
